@@ -12,6 +12,7 @@ import (
 	"fmt"
 	"os"
 	"path/filepath"
+	"runtime"
 	"sort"
 	"strconv"
 	"strings"
@@ -1651,10 +1652,12 @@ func main() {
 		}
 	}
 
+	memReport("after issue-credential / present-proof / introduce")
+
 	// DID Exchange and legacy Connection: two real frameworks per case, the harness schedules messages and decisions
 	connDepth, connMax, connRandom, connFault := 9, 320, 120, 260
 	if a.Tier == "thorough" {
-		connDepth, connMax, connRandom, connFault = 12, 1500, 400, 2000
+		connDepth, connMax, connRandom, connFault = 12, 800, 400, 800
 	}
 
 	for pi, p := range []string{"didex", "legacy"} {
@@ -1666,5 +1669,19 @@ func main() {
 		}
 	}
 
+	memReport("after the connection protocols")
 	fmt.Fprintf(os.Stderr, "c09: %d records\n", tr.N())
+}
+
+// memReport prints the heap in use (development aid: C09_MEM=1).
+func memReport(what string) {
+	if os.Getenv("C09_MEM") == "" {
+		return
+	}
+
+	var m runtime.MemStats
+
+	runtime.GC()
+	runtime.ReadMemStats(&m)
+	fmt.Fprintf(os.Stderr, "c09 mem %s: heap %d MB, sys %d MB, goroutines %d\n", what, m.HeapAlloc>>20, m.Sys>>20, runtime.NumGoroutine())
 }
